@@ -32,6 +32,7 @@
 #include <time.h>               /* futimens() */
 
 #include "signals.h"            /* setup_signals() */
+#include "verif.h"
 #include "main.h"               /* pname */
 
 
@@ -60,6 +61,7 @@ static bool warned;
 void
 cleanup(void)
 {
+  VERIF_EV("\"e\":\"Cleanup\",\"out\":%d", opathn != NULL);
   if (opathn != NULL) {
     (void)unlink(opathn);
     /*
@@ -930,14 +932,20 @@ main(int argc, char **argv)
 
       ret = input_init(operands, &instat);
       if (-1 != ret) {
+        VERIF_EV("\"e\":\"OpIn\",\"blk\":%d", verif_sigblk());
         cli();
         if (-1 != output_init(operands, &instat)) {
+          VERIF_EV("\"e\":\"OpOut\",\"regf\":%d,\"blk\":%d",
+                   (int)(OM_REGF == outmode), verif_sigblk());
           work();
+          VERIF_EV("\"e\":\"Worked\",\"blk\":%d", verif_sigblk());
 
           if (OM_REGF == outmode) {
             output_regf_uninit(ospec.fd, &instat);
+            VERIF_EV("\"e\":\"OutDone\",\"blk\":%d", verif_sigblk());
             if (!keep) {
               input_oprnd_rm(operands);
+              VERIF_EV("\"e\":\"InRm\",\"blk\":%d", verif_sigblk());
             }
           }
 
@@ -963,6 +971,7 @@ main(int argc, char **argv)
         }                       /* output available or discarding */
         sti();
         input_uninit();
+        VERIF_EV("\"e\":\"InDone\"");
       }                         /* input available */
     }
 
@@ -983,5 +992,6 @@ main(int argc, char **argv)
   }
 
   gcov_flush();
+  VERIF_EV("\"e\":\"Exit\",\"st\":%d", warned ? EX_WARN : EX_OK);
   _exit(warned ? EX_WARN : EX_OK);
 }
